@@ -12,11 +12,15 @@ def schemas():
     out.append({"name": "explicit", "model": {"defs": [
         SG.schema_def([("query", "Q"), ("mutation", "M")]),
         SG.tdef("object", "Q", fields=[SG.fdef("a", G.named("Int")), SG.fdef("m", G.named("Mutation")), SG.fdef("u", G.named("U")),
+                                             # a field of interface type whose sub-interface `Archived` no object implements (so `... on Archived` can never apply)
+                                             SG.fdef("node2", G.named("Node2")),
                                              # an argument of type list-of-non-null WITH a default (the default does not reach into a supplied list)
                                              SG.fdef("wd", G.named("Int"), [SG.ival("ids", G.lst(G.nn(G.named("Int"))), {"k": "list", "vs": []})])]),
         SG.tdef("object", "M", fields=[SG.fdef("set", G.named("Int"), [SG.ival("v", G.named("In"))])]),
         SG.tdef("object", "Mutation", fields=[SG.fdef("notRoot", G.named("Int"))]),
-        SG.tdef("object", "A", fields=[SG.fdef("x", G.named("Int"))]), SG.tdef("object", "B", fields=[SG.fdef("y", G.named("Int"))]),
+        SG.tdef("interface", "Node2", fields=[SG.fdef("x", G.named("Int"))]),
+        SG.tdef("interface", "Archived", interfaces=["Node2"], fields=[SG.fdef("x", G.named("Int"))]),
+        SG.tdef("object", "A", interfaces=["Node2"], fields=[SG.fdef("x", G.named("Int"))]), SG.tdef("object", "B", fields=[SG.fdef("y", G.named("Int"))]),
         SG.tdef("object", "Lone", fields=[SG.fdef("z", G.named("Int"))]),
         SG.tdef("union", "U", members=["A", "B"]), SG.tdef("input", "In", input_fields=[SG.ival("a", G.named("Int")), SG.ival("r", G.nn(G.named("String")))])]}})
     return out
